@@ -237,3 +237,87 @@ def linked_inventory(r):
     opts = [["nodes_uri", "../" * up + "nodes"], ["classes_uri", "../" * up + "classes"], ["compose_node_name", compose]]
     return {"op": "inventory", "config": {"inventory_link": [link, "/".join(depth)], "compose_node_name": compose, "file_options": r.shuffle(opts)},
             "files": files, "fam": "linked_inventory"}
+
+
+YAML_DOCS = [
+    # anchors, aliases, merge keys (single, list of merges, own keys before inherited ones, nested)
+    "parameters:\n  defaults: &d\n    ports: [80]\n    tls: false\n  web:\n    <<: *d\n    tls: true\n  api:\n    <<: *d\n    ~ports: [8080]\n",
+    "parameters:\n  a: &a {x: 1, y: [1]}\n  b: &b {y: [2], z: 3}\n  c:\n    <<: [*a, *b]\n    w: 0\n  d: *a\n",
+    "parameters:\n  base: &base\n    k: v\n    n: {deep: [1, 2]}\n  outer:\n    inner:\n      <<: *base\n      n: {deep: [3]}\n",
+    "parameters:\n  l: &l [1, 2]\n  m: {a: *l, b: *l}\n  r: \"${m:a}\"\n",
+    # block scalars (trailing newline kept / stripped), folded, multi-line plain, explicit tags, quoted keys
+    "parameters:\n  lit: |\n    line1\n    ${ref}\n  strip: |-\n    ${ref}\n  fold: >\n    a\n    b ${ref}\n  ref: R\n",
+    "parameters:\n  s: !!str 123\n  f: !!float 1\n  n: !!null ''\n  t: !!bool 'true'\n  e: \"x${s}y\"\n",
+    "parameters:\n  'quoted key': 1\n  \"dq\\tkey\": 2\n  ? complex simple\n  : 3\n  r: \"${quoted key}\"\n",
+    "parameters:\n  multi: a\n    b\n    c\n  u: \"\\u00e9\\U0001F600\\x41\\0end\"\n  empty: ''\n  tilde: ~\n  q: '~'\n",
+    # duplicate keys in one mapping (a YAML-level error), merge of a non-mapping (error), alias to scalar
+    "parameters:\n  a: 1\n  a: 2\n",
+    "parameters:\n  s: &s 5\n  m:\n    <<: *s\n",
+    "classes: &c [base]\napplications: *c\nparameters: {x: 1}\n",
+    "parameters: &p\n  self: 1\nextra: *p\n",
+]
+
+
+def yaml_features(r):
+    """Class and node files written as YAML text using anchors, aliases, merge keys, block scalars, tags and quoted keys
+    (the harness hands the model what the YAML libraries make of it)."""
+    docs = r.shuffle(list(YAML_DOCS))[: r.range(1, 3)]
+    files = [{"path": "classes/base.yml", "raw": "parameters: {ref: base-ref, order: [base]}\n"}]
+    incs = ["base"]
+    for i, d in enumerate(docs):
+        files.append({"path": "classes/y%d.yml" % i, "raw": d})
+        incs.append("y%d" % i)
+    node = "classes: [%s]\nparameters:\n  own: n\n  web: {extra: \"${ref}\"}\n" % ", ".join(r.shuffle(incs) if r.chance(1, 2) else incs)
+    files.append({"path": "nodes/n.yml", "raw": node})
+    if r.chance(1, 2):
+        files.append({"path": "nodes/m.yml", "raw": r.choice(YAML_DOCS)})
+    return {"op": "inventory", "config": {}, "files": files, "fam": "yaml_features"}
+
+
+def numeric_names(r):
+    """Class, include and application names that YAML would read as numbers, booleans or nulls when unquoted: in a list
+    of strings the entry is its source text (22.10 stays 22.10)."""
+    toks = ["22.10", "22.1", "1.50", "0x10", "16", "1e3", "007", "7", "+5", ".5", "0.5", "True", "true", "no", "1_000", "2024.10"]
+    a, b = r.choice(toks), r.choice(toks)
+    files = []
+    def clsfile(name):
+        # dotted names live in directories: 22.10 -> classes/22/10.yml
+        return "classes/" + name.replace(".", "/") + ".yml"
+    seen = set()
+    for nm in {a, b, "22.1"}:
+        pth = clsfile(nm)
+        if pth in seen or nm.startswith(".") or nm.startswith("+") and False:
+            continue
+        seen.add(pth)
+        files.append({"path": pth, "raw": "parameters: {who_%s: '%s'}\napplications: [app_%s]\n" % (re_sub(nm), nm, re_sub(nm))})
+    files.append({"path": "nodes/n.yml", "raw": "classes: [%s, %s]\napplications: [%s, ~%s, %s]\n" % (a, b, a, b, b)})
+    rel = r.choice([".inf", ".5", ".1", ".nan", ".x"])
+    files.append({"path": "classes/env/user.yml", "raw": "classes: [%s]\nparameters: {u: 1}\n" % rel})
+    files.append({"path": "classes/env/" + rel[1:] + ".yml", "raw": "parameters: {rel: '%s'}\n" % rel})
+    files.append({"path": "nodes/m.yml", "raw": "classes: [env.user]\n"})
+    return {"op": "inventory", "config": {"ignore_class_notfound": r.chance(1, 3)}, "files": files, "fam": "numeric_names"}
+
+
+def re_sub(nm):
+    import re as _re
+    return _re.sub(r"[^A-Za-z0-9]", "_", nm)
+
+
+def broken_file_among_good(r):
+    """One class or node file that cannot be parsed among healthy ones: the failure of that file must not leak into the
+    rendering of anything else, in any order and on any thread."""
+    from . import geninv as GI
+    c = GI.gen_inventory(r, n_classes=r.range(2, 4), shape=r.choice(["tree", "dag"]), n_nodes=r.range(3, 8))
+    bad = r.choice(["a: [unclosed", "classes: notalist\n", "parameters: [1, 2]\n", "parameters: {=k: 1, k: 2}\n", "parameters: {x: !tagged 1}\n", "\tbad: tab"])
+    where = r.choice(["node", "class"])
+    if where == "node":
+        c["files"].append({"path": "nodes/a_broken.yml", "raw": bad})
+        c["files"].append({"path": "nodes/zz_broken.yml", "raw": bad})
+    else:
+        c["files"].append({"path": "classes/brokencls.yml", "raw": bad})
+        for f in c["files"]:
+            if f["path"].startswith("nodes/") and isinstance(f.get("content"), dict) and r.chance(1, 2):
+                f["content"].setdefault("classes", []).insert(0, "brokencls")
+    c["repeat"] = 2
+    c["fam"] = "broken_file"
+    return c
